@@ -23,6 +23,8 @@ TRUSTED_EXTRA = [
     "C08: translator/gen_stack.py (regex/brace-matching reader of fn bodies and call sites; over-approximates call edges; "
     "whitelists exec_stmt->exec_block_with_flow as a descent into a sub-block and the self-recursion of clone_into/promote/fmt/join as data descent)",
     "C08: frame sizes, inlining and the crash itself are outside the model: observed on the naija binaries only (8 MiB RLIMIT_STACK, x86-64 Linux)",
+    "C08: translator also re-reads the body of check_stack (one comparison of the stack distance with STACK_BUDGET, no other early exit), the single "
+    "assignment of stack_base (run_inner entry) and the array locals of the functions above that base (src/bin/naija/main.rs, cmd.rs, Runtime::run*)",
     "C08: library routines of src/builtins that do not touch a Value (string/number helpers) are treated as non-recursive leaves",
 ]
 ASSUMPTIONS = [
@@ -83,6 +85,48 @@ GUARDED = {
     "rec-string-param": ("do f(s) start\n return f(\"x\")\nend\nshout(f(\"y\"))\n", [MAIN]),
 }
 
+# The recursive call of each shape (prefix that selects the occurrence, call text).
+REC_CALL = {n: ("", "f(n add 1)") for n in GUARDED}
+REC_CALL.update({
+    "rec-mutual": ("return ", "g(n add 1)"),
+    "rec-inner-function": ("return ", "inner(m add 1)"),
+    "rec-capture-write": ("return ", "f()"),
+    "rec-array-param": ("return ", "f([a[0] add 1, 2, 3])"),
+    "rec-string-param": ("return ", "f(\"x\")"),
+})
+
+# Expression contexts put around the recursive call: k nested operators / literals / calls, each
+# of which costs native stack (one or two eval_expr frames) but opens NO scope and enters NO block,
+# so they change the amount of stack per activation, per scope and per probe site by a factor of
+# 1 .. 1000.  (Template placeholders take a bare name and cannot nest; parentheses build no node.)
+CTX_PRE = "do idf9(x) start\n return x\nend\nmake zz9 get [0]\n"
+CONTEXTS = {
+    "add": lambda x, k: "(1 add " * k + x + ")" * k,
+    "arith": lambda x, k: "(2 add 1 divide " * k + x + ")" * k,
+    "minus": lambda x, k: "minus " * k + x,
+    "not": lambda x, k: "not " * k + x,
+    "logic": lambda x, k: "(true and " * k + x + ")" * k,
+    "idcall": lambda x, k: "idf9(" * k + x + ")" * k,
+    "builtin-arg": lambda x, k: "to_string(" * k + x + ")" * k,
+    "index": lambda x, k: "zz9[" * k + x + "]" * k,
+    "array": lambda x, k: "[" * (k // 2 + 1) + x + "][0]" * (k // 2 + 1),
+    "mixed": lambda x, k: "".join(("(1 add ", "minus ", "idf9(", "zz9[")[i % 4] for i in range(k)) + x +
+                          "".join((")", "", ")", "]")[i % 4] for i in reversed(range(k))),
+}
+# nested operators per context: far below the source-nesting thresholds of the open findings
+# (debug 1280, release 23552), from "a few frames" to "one expression alone exhausts the budget"
+CTX_KS = {False: (6, 30, 120, 400), True: (30, 250, 1000, 2000)}
+
+
+def in_context(shape, ctx, k):
+    src = GUARDED[shape][0]
+    pre, call = REC_CALL[shape]
+    i = src.index(pre + call) + len(pre)
+    return CTX_PRE + src[:i] + CONTEXTS[ctx](call, k) + src[i + len(call):]
+
+
+MODES = ("file", "eval", "stdin", "pipe")
+
 # ---- shapes whose depth is the nesting of the source text: k is the nesting depth
 NESTING = {
     "nest-parens": (lambda k: "shout(" + "(" * k + "1" + ")" * k + ")\n", [[PE], [CK]]),
@@ -138,16 +182,28 @@ def blocks_under_rec(n, k):
 
 # ---------------------------------------------------------------------------------------------
 
-def run_naija(env, src, release, stack_kb=STACK_KB, tag="p"):
-    """-> (kind, detail).  kind in ok | reported | diagnostic | crash | alloc-abort | timeout."""
+def run_naija(env, src, release, stack_kb=STACK_KB, tag="p", mode="file"):
+    """-> (kind, detail).  kind in ok | reported | diagnostic | crash | alloc-abort | timeout.
+    mode: how the script reaches the interpreter — file path, --eval text, `naija - < file`, or a pipe."""
     d = os.path.join(env.work, "run")
     os.makedirs(d, exist_ok=True)
-    path = os.path.join(d, "%s_%s.ns" % (tag, common.chash(src + str(stack_kb) + str(release))))
+    path = os.path.join(d, "%s_%s.ns" % (tag, common.chash(src + str(stack_kb) + str(release) + mode)))
     with open(path, "w") as f:
         f.write(src)
-    cmd = "ulimit -c 0; ulimit -s %d; exec %s %s" % (stack_kb, common.naija_bin(release), path)
+    lim = "ulimit -c 0; ulimit -s %d; " % stack_kb
+    exe = common.naija_bin(release)
+    if mode == "file":
+        argv = ["sh", "-c", lim + "exec %s %s" % (exe, path)]
+    elif mode == "eval":
+        argv = ["sh", "-c", lim + 'exec "$0" --eval "$1"', exe, src]
+    elif mode == "stdin":
+        argv = ["sh", "-c", lim + "exec %s - < %s" % (exe, path)]
+    elif mode == "pipe":
+        argv = ["sh", "-c", lim + "cat %s | %s -" % (path, exe)]
+    else:
+        raise ValueError(mode)
     try:
-        p = subprocess.run(["sh", "-c", cmd], stdout=subprocess.PIPE, stderr=subprocess.PIPE, timeout=NAIJA_TIMEOUT,
+        p = subprocess.run(argv, stdout=subprocess.PIPE, stderr=subprocess.PIPE, timeout=NAIJA_TIMEOUT,
                            stdin=subprocess.DEVNULL)
     except subprocess.TimeoutExpired:
         return "timeout", ""
@@ -291,13 +347,13 @@ def depth_reached(env, release, body_if):
     return max(1, int(det.split("=")[1]) - 8)
 
 
-def min_stack_for_report(env, release, src):
+def min_stack_for_report(env, release, src, mode="file"):
     """Smallest RLIMIT_STACK (KiB, 256 KiB steps) at which src still ends with the reported error."""
     lo, hi = 4096, STACK_KB  # lo fails (budget alone is 4 MiB), hi must work
     n = 0
     while hi - lo > 256:
         mid = (lo + hi) // 2 // 64 * 64
-        kind, _ = run_naija(env, src, release, stack_kb=mid, tag="minstack")
+        kind, _ = run_naija(env, src, release, stack_kb=mid, tag="minstack", mode=mode)
         n += 1
         if kind == "reported":
             hi = mid
@@ -371,6 +427,78 @@ def correspond(env, searching=False, model=True):
             disagreements.append({"stream": "stack-model", "shape": n, "error": "model finds an unguarded cycle for a shape that is reported"})
     if len(samples) < 2:
         samples.append({"shape": "rec-direct", "source": GUARDED["rec-direct"][0], "observed": guarded_obs.get("rec-direct")})
+
+    # ---- A2. the same recursions with the recursive call inside k nested expression nodes: the stack
+    #          used per activation / per scope / per probe site varies over three orders of magnitude
+    ctxs = sorted(CONTEXTS)
+    jobs = []
+    for n in GUARDED:
+        for c in ctxs:
+            for rel in profiles:
+                ks = CTX_KS[rel]
+                if not thorough:
+                    # two of the four depths per (shape, context, profile); across the 25 shapes and the
+                    # contexts every depth is run well over a hundred times
+                    ks = sorted(env.rng.sample(ks, 2))
+                for k in ks:
+                    jobs.append((n, c, rel, k))
+    res = pmap(lambda j: run_naija(env, in_context(j[0], j[1], j[3]), j[2], tag="ctx"), jobs)
+    ctx_stats = {"runs": 0, "reported": 0, "statically_rejected": 0, "rejected_then_allocation_abort": 0}
+    ctx_bad = {}
+    for (n, c, rel, k), (kind, det) in zip(jobs, res):
+        evaluations += 1
+        ctx_stats["runs"] += 1
+        if kind == "reported":
+            ctx_stats["reported"] += 1
+            nontrivial.add(common.chash("ctx/%s/%s/%s/%d" % (n, c, pname(rel), k)))
+        elif kind == "diagnostic":
+            ctx_stats["statically_rejected"] += 1      # the context does not type-check around this call
+        elif kind == "crash":
+            ctx_bad.setdefault((n, c), []).append((k, pname(rel), det))
+        elif kind == "alloc-abort":
+            # a context that does not type-check, 2000 deep: rendering the diagnostic for the huge line runs the
+            # arena out of memory (allocation failure, not a stack overflow; outside this property)
+            ctx_stats["rejected_then_allocation_abort"] += 1
+        else:
+            disagreements.append({"stream": "guarded-shape", "shape": n, "context": c, "k": k, "profile": pname(rel),
+                                  "error": "expected the reported overflow, observed %s %s" % (kind, det)})
+    for (n, c), lst in sorted(ctx_bad.items())[:12]:
+        k, prof, det = sorted(lst)[0]
+        failures.append({"key": "%s~%s" % (n, c), "case": {"shape": n, "context": c, "k": k, "profile": prof},
+                         "observed": "runaway recursion whose recursive call sits inside %d nested `%s` expression nodes ended with %s "
+                                     "instead of the 'Stack overflow' runtime error (%d failing (depth, profile) points for this shape and context)"
+                                     % (k, c, det, len(lst))})
+    extra["expression_contexts"] = dict(ctx_stats, contexts=ctxs, depths={pname(r): list(CTX_KS[r]) for r in profiles},
+                                        crashing_shape_contexts=len(ctx_bad))
+    if ctx_stats["reported"] * 2 < ctx_stats["runs"]:
+        disagreements.append({"stream": "guarded-shape", "error": "fewer than half of the expression-context programs reach the overflow: %r" % ctx_stats})
+
+    # ---- A3. input modes: what lies above the recorded stack base differs (file, --eval, `- < file`, pipe)
+    jobs = [(n, rel, m) for n in GUARDED for rel in profiles for m in MODES if m != "file"]
+    heavy = [(n, c, rel, CTX_KS[rel][1], m) for n in ("rec-direct", "rec-mutual", "rec-argument") for c in ("add", "idcall")
+             for rel in profiles for m in MODES if m != "file"]
+    res = pmap(lambda j: run_naija(env, GUARDED[j[0]][0], j[1], tag="mode", mode=j[2]), jobs)
+    res2 = pmap(lambda j: run_naija(env, in_context(j[0], j[1], j[3]), j[2], tag="modectx", mode=j[4]), heavy)
+    mode_bad = {}
+    for key, rel, m, (kind, det) in [(j[0], j[1], j[2], r) for j, r in zip(jobs, res)] + \
+                                    [("%s~%s" % (j[0], j[1]), j[2], j[4], r) for j, r in zip(heavy, res2)]:
+        evaluations += 1
+        if kind == "reported":
+            nontrivial.add(common.chash("mode/%s/%s/%s" % (key, pname(rel), m)))
+        elif kind == "crash":
+            mode_bad.setdefault((key, m), []).append((pname(rel), det))
+        elif kind != "diagnostic" or "~" not in key:
+            disagreements.append({"stream": "guarded-shape", "shape": key, "mode": m, "profile": pname(rel),
+                                  "error": "expected the reported overflow, observed %s %s" % (kind, det)})
+    for (key, m), lst in sorted(mode_bad.items())[:12]:
+        shape, _, c = key.partition("~")
+        case = {"shape": shape, "mode": m, "profile": lst[0][0]}
+        if c:
+            case.update({"context": c, "k": CTX_KS[lst[0][0] == "release"][1]})
+        failures.append({"key": "%s@%s" % (key, m), "case": case,
+                         "observed": "runaway recursion in a script delivered by `%s` ended with %s instead of the 'Stack overflow' runtime error (%s)"
+                                     % (m, lst[0][1], ", ".join(p for p, _ in lst))})
+    extra["input_modes"] = {"modes": list(MODES), "runs": len(jobs) + len(heavy), "crashing": len(mode_bad)}
 
     # ---- B. nesting of the source text: smallest depth in the grid that dies by signal
     top = 1 << 18
@@ -501,24 +629,44 @@ def correspond(env, searching=False, model=True):
         ms, n = min_stack_for_report(env, rel, GUARDED["rec-direct"][0])
         evaluations += n
         L = int((meta or {}).get("L", 0) or 0)
+        by_mode = {"file": ms}
+        for m in MODES[1:]:
+            by_mode[m], n2 = min_stack_for_report(env, rel, GUARDED["rec-direct"][0], mode=m)
+            evaluations += n2
         e = {"activations_to_budget": d, "bytes_per_activation_estimate": per_act, "min_stack_kib_for_report": ms,
-             "observed_need_beyond_budget_kib": ms - budget // 1024}
+             "observed_need_beyond_budget_kib": ms - budget // 1024, "min_stack_kib_for_report_by_mode": by_mode}
         if per_act and L:
             # M := bytes of a whole activation (4 frames of the cycle) is an upper estimate of any single frame on it
             need = budget + per_act * (1 + (8 + 1) * L) + 1048576
             e["inequality_d8_headroom1MiB"] = {"lhs": need, "rhs": STACK_KB * 1024, "holds": need < STACK_KB * 1024}
         est[pname(rel)] = e
     extra["frame_estimates"] = est
+    # stack arrays of the frames above the recorded base (translator) against the headroom that is left
+    gtxt = open(os.path.join(common.COQ, "theories", "GenStack.v"), encoding="utf-8").read()
+    am = re.search(r"Definition above_base_array_bytes : Z := (\d+)%Z", gtxt)
+    cm = re.search(r"runs \(src/bin/naija/main.rs[^:]*\): (.*?) \*\)", gtxt, re.S)
+    if am:
+        above = int(am.group(1))
+        budget = gen_ids()[1]
+        reserve = max([(e.get("observed_need_beyond_budget_kib") or 0) for e in est.values()] + [0]) * 1024
+        headroom = STACK_KB * 1024 - budget - reserve
+        extra["above_base_stack_arrays"] = {"bytes": above, "sites": cm.group(1) if cm else "", "headroom_left_bytes": headroom,
+                                            "measured_reserve_bytes": reserve}
+        if above > headroom // 2:
+            disagreements.append({"stream": "stack-model", "error": "array locals of the frames above the recorded stack base take %d bytes; "
+                                  "only %d bytes of the %d KiB stack are left after the budget and the measured reserve (%s)"
+                                  % (above, headroom, STACK_KB, cm.group(1) if cm else "")})
     samples.append({"shape": "nest-parens", "k": extra["nesting_thresholds"].get("nest-parens"), "observed": "first depth killed by a signal"})
 
     return {
         "evaluations": evaluations,
         "distinct_nontrivial": len(nontrivial),
         "rule": "naija (debug and release) under RLIMIT_STACK 8 MiB on a shape x depth grid: %d user-recursion shapes at unbounded depth (oracle: 'Stack overflow' "
-                "runtime error, never a signal), %d source-nesting shapes and %d data-nesting shapes on a geometric depth grid (oracle: no exit by signal), nested blocks under a "
+                "runtime error, never a signal), each also with the recursive call inside k nested expression nodes of %d kinds (k up to 400 debug / 2000 release) and delivered by "
+                "file, --eval, redirected stdin and a pipe, %d source-nesting shapes and %d data-nesting shapes on a geometric depth grid (oracle: no exit by signal), nested blocks under a "
                 "recursion that nearly used the budget; non-trivial = distinct (shape, profile, depth) run that exhausted the depth (reported overflow or crash); every shape's "
                 "function cycle is classified by the extracted model over the regenerated call graph and the prediction compared with the observation"
-                % (len(GUARDED), len(NESTING), len(DATA)),
+                % (len(GUARDED), len(CONTEXTS), len(NESTING), len(DATA)),
         "samples": samples,
         "failures": failures,
         "disagreements": disagreements,
@@ -530,6 +678,8 @@ def source_of(case):
     s = case.get("shape")
     if case.get("source"):
         return case["source"]
+    if s in GUARDED and case.get("context"):
+        return in_context(s, case["context"], int(case["k"]))
     if s in GUARDED:
         return GUARDED[s][0]
     if s in NESTING:
@@ -553,8 +703,9 @@ def replay(env, payload):
     if not ok:
         print("replay: naija build failed\n" + out[-1000:])
         return 1
-    kind, det = run_naija(env, src, release, tag="replay")
-    print("shape %s (%s): %s %s" % (case.get("shape"), "release" if release else "debug", kind, det))
+    kind, det = run_naija(env, src, release, tag="replay", mode=case.get("mode", "file"))
+    print("shape %s %s (%s, %s): %s %s" % (case.get("shape"), case.get("context", ""), "release" if release else "debug",
+                                           case.get("mode", "file"), kind, det))
     bad = kind == "crash"
     print("replay: %s" % ("still failing" if bad else "passes now"))
     return 1 if bad else 0
